@@ -46,6 +46,13 @@ def oracle():
 
 def check(ctx):
     prog = ctx.prog
+    # bounded re-sending also covers the new-order / re-registration loop of request_certificate (C07.R6), and a re-sent request is signed
+    # with a nonce that is stored on the endpoint, never with an emptied slot (C12.L4: who may touch Endpoint.nonce)
+    from . import c07 as _c07, c12 as _c12
+    ctx.shared("C07", _c07.check_loops)
+    ctx.shared("C12", _c12.check_nonce)
+    from . import c03 as _c03
+    ctx.shared("C03", _c03.no_discarded_results)     # an error answer is never taken for success: no Result of the request path is dropped unexamined
     W1 = ctx.rule("W1", "what the client can READ of an error answer and of a polled object: member names per RFC 8555 / RFC 7807, unknown members ignored (a problem document with extension members is still classified)")
     from .wire_shape import check_read_shapes
     check_read_shapes(ctx, W1, ["acmed::acme_proto::structs::error::HttpApiError", "acmed::acme_proto::structs::order::Order", "acmed::acme_proto::structs::order::OrderStatus",
